@@ -66,7 +66,10 @@ def run_case(rng, tier, case):
     case.feature('book_position:' + ('first' if pos == 0 else 'last' if pos == len(sp['assets']) - 1 else 'middle'),
                  'full_exec' if ob['full_exec'] else 'partial', 'freq:' + sp['grid']['freq'])
     case.key = env.spec_key(sp); case.sample = gen.abbreviate(spec); case.spec = spec
-    r = flow.run_portfolio(spec)
+    via_json = rng.random() < 0.15 and not spec['grid'].get('tz')       # (an order book rebuilt from JSON holds naive dates - usable on naive grids, like the DataFrame form)
+    if via_json:
+        case.feature('portfolio_from_its_json_form')          # the book stored and loaded before use: still the book that was described (full_exec, orders)
+    r = flow.run_portfolio(spec, via_json=via_json)
     if not r.ok:
         case.reject(flow.describe_error(r)); return
     if r.res == 'inaccurate':
